@@ -26,6 +26,8 @@ Reason(e) ==
   ELSE IF \E c \in ToSet(e.out) : c \in PrivateUse /\ c \notin ToSet(e.inp) THEN "internal-marker-in-speech"
   ELSE IF HasPair(e.out, 91) \/ HasPair(e.out, 93) THEN "navigation-brackets-in-speech"
   ELSE IF \E c \in ToSet(e.out) : c \in Invisible THEN "raw-invisible-operator-in-speech"
+  \* (with an engine selected - e.engine = 1 - markup is what is asked for: C13 judges it)
+  ELSE IF ("engine" \in DOMAIN e /\ e.engine = 1) THEN "ok"
   ELSE IF (60 \in ToSet(e.out) /\ 60 \notin ToSet(e.inp)) \/ (62 \in ToSet(e.out) /\ 62 \notin ToSet(e.inp)) THEN "markup-without-engine"
   ELSE "ok"
 TInit == l = 1
